@@ -164,8 +164,9 @@ impl Selector {
                     /* The selector matches if idx == a*n + b, where
                      * n >= 0
                      */
-                    let idx_offset = idx - b;
-                    if *a == 0 {
+                    let idx_offset = i64::from(idx) - i64::from(*b);
+                    let a = i64::from(*a);
+                    if a == 0 {
                         return idx_offset == 0 && Self::do_matches(&comps[1..], node);
                     }
                     if (idx_offset % a) != 0 {
